@@ -81,4 +81,28 @@ MUTANTS = [
         #[cfg(not(feature = "cluster"))]
         let typed_msg = TActor::Msg::from_boxed(msg)?;
 """)]},
+ {"name": "c19-derive-index-instead-of-get", "props": ["C19"], "rules": ["C19.R4"],
+  "edits": [("ractor_cluster_derive/src/codegen.rs",
+   """            let __data_bytes = __args
+                .get(__len_end..__data_end)
+                .ok_or(ractor::message::BoxedDowncastErr)?
+                .to_vec();""",
+   """            let __data_bytes = __args[__len_end..__data_end].to_vec();""")]},
+ {"name": "c19-derive-no-catch-unwind", "props": ["C19"], "rules": ["C19.R4"],
+  "edits": [("ractor_cluster_derive/src/codegen.rs",
+   """            let __t_result = ::std::panic::catch_unwind(::std::panic::AssertUnwindSafe(|| {
+                <#target_type as ractor::BytesConvertable>::from_bytes(__data_bytes)
+            }))
+                .map_err(|_| ractor::message::BoxedDowncastErr)?;""",
+   """            let __t_result = <#target_type as ractor::BytesConvertable>::from_bytes(__data_bytes);""")]},
+ {"name": "c19-derive-trailing-bytes-accepted", "props": ["C19"], "rules": ["C19.R4"],
+  "edits": [("ractor_cluster_derive/src/codegen.rs",
+   """                let mut __ptr = 0usize;
+                #(#unpacked;)*
+                if __ptr == __args.len() {
+                    Ok(#construct)""",
+   """                let mut __ptr = 0usize;
+                #(#unpacked;)*
+                if __ptr <= __args.len() {
+                    Ok(#construct)""")]},
 ]
